@@ -173,6 +173,7 @@ type Exec struct {
 	lastUnknownWrites bool
 	curCall           *ast.CallExpr
 	boundsOnly        bool
+	evaluatingAtCall  bool
 	ghostTerms        map[string]ghostRec // store terms built by ghostWrite -> (base array, value written)
 	pfEvents          []string // the same for printf-style printers passed as function values named p (count("p:<substring of the format>"))
 	pEvents           []string // substrings of emitted text the contract under verification counts (count("P:<substring>"))
